@@ -27,7 +27,7 @@ Range(sq) == {sq[i] : i \in DOMAIN sq}
 ArtsOf(t, p) == IF p \in DOMAIN t THEN t[p].arts ELSE <<>>
 ZeroDate == <<0, 0, 0, 0, 0, 0, 0, 0>>
 
-ViolTags == {"ids", "content", "links", "list", "children", "reload", "lost"}
+ViolTags == {"ids", "content", "links", "list", "children", "reload", "lost", "unread"}
 
 (* ---- comparing one observed article with the model's ---------------------------------------------------------- *)
 ArtFails(x, a) ==
@@ -68,7 +68,11 @@ FreshAlt(e, n, pre) ==
   /\ LET a0 == ArtsOf(pre, e.path) IN
      \E j \in PresentIds(n) \ DOMAIN a0 : PresentIds(n) = DOMAIN a0 \cup {j} /\ j # NewId(a0)
 
+(* `unobs`: the read requests about this path were not answered (connection closed / no reply).  For a path that exists
+   the statement applies (its listing and its article list must be returned): "unread"; about a path that does not
+   exist nothing is claimed. *)
 NodeFails(e, n, t, pre) ==
+  IF n.unobs THEN (IF n.path \in DOMAIN t \cup {<<>>} THEN {"unread"} ELSE {}) ELSE
   LET a == ArtsOf(t, n.path) IN
   (IF DOMAIN a \subseteq PresentIds(n) \cup Range(n.absent) THEN {} ELSE {"obs-incomplete"})
   \cup (IF PresentIds(n) = DOMAIN a /\ Len(n.arts) = Cardinality(DOMAIN a) THEN {}
@@ -79,7 +83,7 @@ NodeFails(e, n, t, pre) ==
 
 (* ---- what a post must have set (LinksOnPost) ------------------------------------------------------------------------ *)
 PostLinkFails(e, pre) ==
-  IF e.op # "post" THEN {}
+  IF e.op # "post" \/ \E n \in Range(e.live.nodes) : n.path = e.path /\ n.unobs THEN {}
   ELSE LET a0 == ArtsOf(pre, e.path)
            id == NewId(a0)
            ns == {n \in Range(e.live.nodes) : n.path = e.path}
@@ -134,14 +138,15 @@ Fails(e, t, pre) ==
   lf \cup (IF lf \cap TreeTags = {} /\ ~DiskOK(e.disk, t) THEN {"reload"} ELSE {})
 
 (* ---- details for the report ------------------------------------------------------------------------------------------------- *)
+Seen(e) == {n \in Range(e.live.nodes) : ~n.unobs}
 ListDetail(e, t) ==
-  LET bad == {n \in Range(e.live.nodes) : "list" \in ListFails(n.list, ArtsOf(t, n.path))} IN
+  LET bad == {n \in Seen(e) : "list" \in ListFails(n.list, ArtsOf(t, n.path))} IN
   [paths |-> {n.path : n \in bad},
    allOver512 |-> \A n \in bad : MaxEntryLen(ArtsOf(t, n.path)) > 512,
    entryLens |-> {MaxEntryLen(ArtsOf(t, n.path)) : n \in bad},
    obs |-> {[ok |-> n.list.ok, exact |-> n.list.exact, count |-> n.list.count, entries |-> Len(n.list.entries), len |-> n.list.len] : n \in bad}]
 ChildDetail(e, t, pre) ==
-  LET bad == {n \in Range(e.live.nodes) : ~CatsOK(n.cats, CatViewIn(t, n.path))} IN
+  LET bad == {n \in Seen(e) : ~CatsOK(n.cats, CatViewIn(t, n.path))} IN
   [nodes |-> {[path |-> n.path, expected |-> CatViewIn(t, n.path), got |-> n.cats] : n \in bad},
    phantomOnly |-> \A n \in bad : /\ \A it \in Range(n.cats) : it.ok
                                   /\ ItemSet(n.cats) = CatViewIn(t, n.path) \cup {Phantom}
@@ -154,7 +159,7 @@ ReloadDetail(e, t) ==
 TreeDetail(e, t) ==
   {[path |-> n.path, model |-> DOMAIN ArtsOf(t, n.path), present |-> PresentIds(n), absent |-> Range(n.absent),
     fails |-> UNION {ArtFails(x, ArtsOf(t, n.path)) : x \in Range(n.arts)}]
-     : n \in {m \in Range(e.live.nodes) : PresentIds(m) # DOMAIN ArtsOf(t, m.path)
+     : n \in {m \in Seen(e) : PresentIds(m) # DOMAIN ArtsOf(t, m.path)
                                           \/ UNION {ArtFails(x, ArtsOf(t, m.path)) : x \in Range(m.arts)} # {}}}
 
 Args(e) == [k \in DOMAIN e \ {"live", "disk", "reply"} |-> e[k]]
@@ -164,6 +169,7 @@ Detail(e, t, pre, f) ==
    list |-> IF "list" \in f THEN ListDetail(e, t) ELSE [paths |-> {}],
    children |-> IF "children" \in f THEN ChildDetail(e, t, pre) ELSE [nodes |-> {}],
    reload |-> IF "reload" \in f THEN ReloadDetail(e, t) ELSE [unloadable |-> FALSE],
+   unread |-> IF "unread" \in f THEN {[path |-> n.path, how |-> n.how] : n \in {m \in Range(e.live.nodes) : m.unobs /\ m.path \in DOMAIN t \cup {<<>>}}} ELSE {},
    tree |-> IF f \cap {"ids", "content", "links", "links-other", "id-policy", "aux"} # {} THEN TreeDetail(e, t) ELSE {}]
 
 Report(kind, e, detail) ==
@@ -223,13 +229,17 @@ TreeClean(e, t) == /\ UNION {NodeFails(e, n, t, nodes) : n \in Range(e.live.node
 UnansweredEv(e, s) ==
   LET can == Guard(s) /\ ~(e.op = "reload" /\ ~e.ok)
       ta == IF can THEN TreeAfter(s) ELSE nodes
-      okA == ~e.ended /\ can /\ TreeClean(e, ta)
-      okU == ~e.ended /\ TreeClean(e, nodes)
+      (* where the live view has unobservable paths the loadable file decides which items and articles exist *)
+      blind == \E n \in Range(e.live.nodes) : n.unobs
+      onDisk(x) == ~blind \/ ~e.disk.ok \/ DiskShapeOK(e.disk, x)
+      okA == ~e.ended /\ can /\ TreeClean(e, ta) /\ onDisk(ta)
+      okU == ~e.ended /\ TreeClean(e, nodes) /\ onDisk(nodes)
       t == IF okA THEN ta ELSE nodes
       (* a request that is valid in the model (existing item, existing or zero parent) and must change the tree, but
          the tree the server shows afterwards does not have the change: the post / the new item / the deletion is
          lost - the statement applies whatever the server did instead of answering *)
-      lost == ~e.ended /\ can /\ ta # nodes /\ ~okA
+      lost == \/ ~e.ended /\ can /\ ta # nodes /\ ~okA
+              \/ ~e.ended /\ e.op \in {"get", "list", "cats"} /\ Exists(e.path)     \* a read of an existing path
       why == IF e.ended THEN "server not observable any more: run ended"
              ELSE IF e.panicked THEN "connection closed instead of a reply (handler panicked)"
              ELSE "no reply within the bound"
